@@ -105,10 +105,12 @@ func merge(src []*hintFileReader, dst string, ct *CollisionTable, hintState *int
 		}
 		hp[i] = &mergeReader{src[i], nil}
 		hp[i].curr, err = src[i].next()
-		hp[i].curr.Pos.ChunkID = src[i].chunkID
 		if err != nil {
 			logger.Errorf("%s", err.Error())
 			return nil, err
+		}
+		if hp[i].curr != nil {
+			hp[i].curr.Pos.ChunkID = src[i].chunkID
 		}
 		if src[i].datasize > datasize {
 			datasize = src[i].datasize
@@ -124,7 +126,12 @@ func merge(src []*hintFileReader, dst string, ct *CollisionTable, hintState *int
 	}
 
 	mw := newMergeWriter(w, ct)
-	h := mergeHeap(hp)
+	h := make(mergeHeap, 0, n)
+	for _, mr := range hp {
+		if mr.curr != nil { // a hint file without items has nothing to merge
+			h = append(h, mr)
+		}
+	}
 	heap.Init(&h)
 	for len(h) > 0 {
 		if *hintState&HintStateGC != 0 && !forGC {
